@@ -122,6 +122,8 @@ impl Subscribe<Registry> for RLayer {
 struct Handle {
     id: span::Id,
     serial: u64,
+    /// the span has no parent
+    root: bool,
 }
 #[derive(Debug, Clone)]
 struct EnteredVia {
@@ -149,7 +151,7 @@ fn new_span(d: &Dispatch, parent: Option<&span::Id>) -> Handle {
         None => span::Attributes::new_root(&META, &vs),
     };
     let id = d.new_span(&attrs);
-    Handle { id, serial: LAST_SERIAL.with(|l| l.get()) }
+    Handle { id, serial: LAST_SERIAL.with(|l| l.get()), root: parent.is_none() }
 }
 
 fn run_case(case: &Case) -> Outcome {
@@ -172,7 +174,7 @@ fn run_case(case: &Case) -> Outcome {
         let mut v = Vec::new();
         for h in &t.holds {
             let f = &forest[*h as usize % n];
-            v.push(Handle { id: d.clone_span(&f.id), serial: f.serial });
+            v.push(Handle { id: d.clone_span(&f.id), serial: f.serial, root: f.root });
         }
         dealt.push(v);
     }
@@ -204,7 +206,7 @@ fn run_case(case: &Case) -> Outcome {
                 match *op {
                     ROp::Clone { h } => {
                         if let Some(k) = pick(h, &hs) {
-                            let nh = Handle { id: d.clone_span(&hs[k].id), serial: hs[k].serial };
+                            let nh = Handle { id: d.clone_span(&hs[k].id), serial: hs[k].serial, root: hs[k].root };
                             hs.push(nh);
                         }
                     }
@@ -214,11 +216,15 @@ fn run_case(case: &Case) -> Outcome {
                         // (Releasing the LAST reference from inside `exit` is only possible
                         // through the raw collector API and runs into F2's root cause: the
                         // registry then releases the parent through a re-entrant get_default.)
-                        let free: Vec<usize> = (0..hs.len()).filter(|k| !entered.iter().any(|e| e.id == hs[*k].id && e.via == *k)).collect();
+                        // For a root span the guard's handle may go first as well (raw collector
+                        // API): the exit then releases the last reference and has to close it.
+                        let free: Vec<usize> = (0..hs.len()).filter(|k| hs[*k].root || !entered.iter().any(|e| e.id == hs[*k].id && e.via == *k)).collect();
                         if let Some(k) = if free.is_empty() { None } else { Some(free[h as usize % free.len()]) } {
                             // indices above k shift down
                             for e in entered.iter_mut() {
-                                if e.via > k {
+                                if e.via == k {
+                                    e.via = usize::MAX; // the handle it was entered through is gone
+                                } else if e.via > k && e.via != usize::MAX {
                                     e.via -= 1;
                                 }
                             }
